@@ -28,13 +28,13 @@ SKELS = {
             "WrapMessage", "RPCCall", "QuorumCall", "AsyncCall", "CorrectableCall", "Multicast", "Unicast"],
     "C06": ["Multicast", "Unicast", "getCallOptions", "WithNoSendWaiting", "ch_sendMsg", "ch_waitForSend", "QuorumCall", "AsyncCall", "CorrectableCall",
             "tmplfile_multicast", "tmplfile_unicast"],
-    "C07": ["ch_sender", "ch_receiver", "ch_cancelPendingMsgs", "ch_connect", "ch_routeResponse", "QuorumCall", "handleAsyncCall", "QCEError", "nodeErrorError", "WrapMessage"],
+    "C07": ["ch_sender", "ch_receiver", "ch_cancelPendingMsgs", "ch_connect", "ch_reconnect", "ch_routeResponse", "QuorumCall", "handleAsyncCall", "QCEError", "nodeErrorError", "WrapMessage"],
     "C08": ["ch_enqueue", "RPCCall", "QuorumCall", "handleAsyncCall", "handleCorrectableCall", "Multicast", "Unicast", "ch_sendMsg", "ch_reconnect", "incompleteCause"],
     "C09": ["ch_newNodeStream", "ch_enqueue", "ch_routeResponse", "ch_cancelPendingMsgs", "ch_deleteRouter", "ch_sendMsg", "ch_sender", "ch_receiver", "ch_connect", "ch_reconnect",
             "ch_isConnected", "handleCorrectableCall"],
     "C10": ["ch_connect", "ch_reconnect", "ch_newNodeStream", "ch_receiver", "ch_sender", "ch_newChannel", "node_RawNode_newContext", "node_RawNode_dial", "node_RawNode_connect", "srv_NodeStream"],
     "C12": ["mgr_RawManager_Close", "mgr_RawManager_closeNodeConns", "node_RawNode_close", "node_RawNode_connect", "ch_enqueue", "ch_sender", "ch_receiver", "ch_reconnect", "Multicast", "Unicast"],
-    "C18": ["ch_routeResponse", "ch_enqueue", "ch_deleteRouter", "ch_cancelPendingMsgs", "ch_sendMsg", "handleAsyncCall", "handleCorrectableCall", "QuorumCall"],
+    "C18": ["ch_routeResponse", "ch_enqueue", "ch_deleteRouter", "ch_cancelPendingMsgs", "ch_sendMsg", "ch_receiver", "ch_reconnect", "handleAsyncCall", "handleCorrectableCall", "QuorumCall"],
 }
 
 TECH = "Lean 4 theorems over a hand-written executable model; tie = decision expressions regenerated from the Go source (gx) + skeleton digests + differential run of the real code against the Lean driver"
@@ -52,10 +52,11 @@ PROPS = {
     ),
     "C09": dict(
         level="proof", engines=[eng("wedge", 40, 1500, timeout=1500)], labels=["C09"],
-        text="Partial. Theorems (Props/C09.lean) over the LTS ConnMgr (sender and receiver program counters, streamMut with writer preference, streamBroken, responseMut, stream liveness, queue, Close; 39 labels): "
-             "a 13-clause invariant is inductive; wedge_shapes: in every reachable state with an open manager in which something is owed and neither the library nor a well-behaved environment can move, the state has "
-             "one of exactly two shapes (stale-broken, stream back-pressure) — a complete list; both shapes are stuck and both are reachable (explicit traces checked by the kernel): the two known findings. "
-             "Tie: isConnected and the give-up test regenerated from channel.go; digests of the twelve functions the LTS was written from; engine wedge: workload phases with cancellations, slow quorum functions and handlers, "
+        text="Partial. Theorems (Props/C09.lean) over the LTS ConnMgr (sender and receiver program counters, streamMut with writer preference, streamBroken, responseMut, stream liveness, answers in flight and requests lost with a dead stream, queue, Close; 41 labels): "
+             "an 18-clause invariant is inductive; wedge_shapes: in every reachable state with an open manager in which something is owed and neither the library nor a well-behaved environment can move, the state has "
+             "one of exactly two shapes (stale-broken, stream back-pressure) — a complete list; both shapes are stuck and both are reachable (explicit traces checked by the kernel): the two known findings; requests written to a stream that has died are never forgotten "
+             "(lost_is_cancelled, parked_means_nothing_lost: whoever replaces a stream answers them first), whereas the pinned code reaches a quiet state with a request lost for good (pinned_leak_reachable). "
+             "Tie: isConnected, the give-up test and the three facts of the stream replacement (cancel under the write lock before the new stream, mark before SendMsg, unmarked requests skipped) regenerated from channel.go; digests of the twelve functions the LTS was written from; engine wedge: workload phases with cancellations, slow quorum functions and handlers, "
              "restarts, then a probe RPC per node; every hang is classified by goroutine signature; two deliberate replays reproduce the known findings.",
         note="Partial: relative to the model's list of shapes; real scheduling is not modelled; a new way to get stuck that is not in the LTS is caught by the digests and by an unknown signature in engine wedge.",
     ),
@@ -64,7 +65,7 @@ PROPS = {
         text="Partial. Theorems (Props/C10.lean): connect() is retried for every request popped while the node is not connected; with a reachable peer a node stays unusable only in the two wedges of C09; "
              "the no-timer clause is refuted on the model (timer_wait_reachable: a reply on a live stream while the receiver sleeps in its back-off — the known finding) and holds outside that state (no_timer_wait_partial). "
              "Tie: connection decisions regenerated; digests of connect / reconnect / newNodeStream / receiver / sender / newChannel / newContext / dial / NodeStream; engine reconn: nodes down at creation, stop/start rounds, "
-             "back-off base 1.5 s vs 30 ms, lag between 'handler replied' and 'call returned', general and per-node metadata and exactly one connect callback on every accepted stream.",
+             "back-off base 1.5 s vs 30 ms, lag between 'handler replied' and 'call returned', an RPC whose request the restarted server handled must not fail, general and per-node metadata and exactly one connect callback on every accepted stream.",
         note="Partial: timers are abstract (a timer wait is recognised at runtime by a lag above 1 s with a 1.5 s base delay).",
     ),
     "C12": dict(
@@ -72,7 +73,7 @@ PROPS = {
         text="Partial. Theorems (Props/C12.lean): after Close, a state in which nothing can move has both goroutines exited (unless the receiver is blocked in the back-pressure wedge); no stream is alive and no request is "
              "accepted after Close; the exiting sender leaves no request in the queue. Tie: send-queue capacity regenerated; digests of Close / closeNodeConns / RawNode.close / connect / enqueue / sender / receiver / reconnect / "
              "Multicast / Unicast; engine close: send buffer {0,1,8} x node states x in-flight calls of all types x Close once / twice / concurrently: every in-flight call returns within 3 s, calls after Close fail fast "
-             "without panic, client-side library goroutines are gone.",
+             "without panic, client-side library goroutines and the goroutines of the gRPC client connections are gone.",
         note="Partial: goroutine exit and socket closure are observed at runtime, not proved.",
     ),
     "C15": dict(
@@ -118,7 +119,7 @@ PROPS = {
         level="proof", engines=[eng("xtalk", 4000, 100000, timeout=900), eng("qc", 1500, 30000)], labels=["C05"],
         text="Theorems (Props/C05.lean) over the node-channel LTS Chan (router table, send queue, sender, receiver, stream-down, deferred deletion), invariant proved inductive over all label sequences: "
              "every delivery goes to the call that registered the id (ids registered at most once); at most one delivery per non-streaming request; a reply without router is dropped and changes nothing; "
-             "stream-down answers every pending request with an error. Tie: deletion guards regenerated from routeResponse / cancelPendingMsgs; digests of the router functions, getMsgID (one counter per manager), "
+             "stream-down answers every pending request with an error; an error is the last thing delivered for a request. Tie: deletion guards regenerated from routeResponse / cancelPendingMsgs; digests of the router functions, getMsgID (one counter per manager), "
              "WrapMessage and all issuing functions; engine xtalk (8..32 goroutines, overlapping configurations, late replies, mixed RPC/quorum/async/correctable/one-way) checks the (call, node) stamp of every "
              "reply-set entry and result; engine qc checks stamps under gating.",
         note="Trusted: Lean kernel; the hand-written LTS; 'message ids are fresh' is a precondition of the register step (justified by the digest of the manager-wide atomic counter, 64 bit, assumed not to wrap); "
@@ -127,7 +128,8 @@ PROPS = {
     "C18": dict(
         level="proof", engines=[eng("xtalk", 4000, 100000, timeout=900), eng("residue", 1, 5, timeout=900), eng("corr", 800, 10000), eng("oneway", 500, 5000)], labels=["C18"],
         text="Theorems (Props/C18.lean, invariants of Chan): once a non-streaming request has been answered no router is kept; a router that exists belongs to an unanswered request; one router per request, "
-             "bounded by the registrations; deferred deletion removes a streaming router; stream-down leaves only streaming routers. Tie: deletion guards regenerated; digests of the router functions, sendMsg and the "
+             "bounded by the registrations; deferred deletion removes a streaming router; stream-down leaves no router; a request answered with an error keeps no router, streaming or not; the replacement of a stream answers exactly the requests "
+             "written to it (replaceCancel_answers_written); over ConnMgr: no request written to a dead stream is forgotten (lost_is_cancelled; the pinned code leaks: pinned_leak_reachable). Tie: deletion guards and the facts of the stream replacement regenerated; digests of the router functions, sendMsg and the "
              "call goroutines; engines: xtalk (after quiescence zero routers on every node and library goroutines back to the baseline), residue (every way a call can end, sequentially, with failing sends and "
              "contexts that end before the send), corr / oneway (zero routers after every case).",
         note="Trusted: as C05. Goroutine exit is observed at runtime (goroutine profile filtered to library frames), not proved.",
@@ -143,12 +145,13 @@ PROPS = {
              "(release and exit are logged just before they take effect, enter just after), which only makes the acceptor stricter.",
     ),
     "C01": dict(
-        level="proof", engines=[eng("qc", 3000, 60000)], labels=["C01", "C05"],
+        level="proof", engines=[eng("qc", 3000, 60000), eng("xtalk", 2000, 60000)], labels=["C01", "C05"],
         text="Theorems (Props/C01.lean): success returns exactly the value the quorum function returned with 'quorum' on its last invocation; every earlier invocation said 'no quorum'; "
              "the invocation log is exactly the list of cumulative reply sets of the consumed prefixes that end in a reply (one invocation per newly arrived successful reply, in order); "
              "every entry is a reply arrival (never a failed node), one entry per node, sets only grow; the async loop invokes QF like the sync one. Tie: loop parameters (Tie/C02), error guard "
              "and reply-channel capacity regenerated from the tree; digests of the loops, Async accessors and the four client templates; exact differential run of all 13 variants with gated and "
-             "burst arrivals: QF invocation log, request identity, overlap counter, provenance stamps (call, node) in every entry.",
+             "burst arrivals: QF invocation log, request identity, overlap counter, provenance stamps (call, node) in every entry; engine xtalk checks the same stamps under concurrency "
+             "(8..32 goroutines, overlapping configurations, late replies).",
         note="Trusted: Lean kernel; gx; the loop model. Provenance (each entry is what that node's handler produced for this call's request) is a statement about routing (C05); here it is "
              "checked on the real code by the stamps the puppet handlers put into replies, not proved.",
     ),
@@ -164,17 +167,18 @@ PROPS = {
         level="proof", engines=[eng("qc", 3000, 60000)], labels=["C07"],
         text="Theorems (Props/C07.lean): the reported error list has exactly one entry per consumed error arrival, in order; an error arrival never changes the reply set; failures interleaved "
              "before a quorum reply do not prevent success (tolerates_failures); an Incomplete outcome lists exactly the failures of a history in which all targeted nodes answered; status round trip "
-             "(C13). Tie: error guards and loop parameters regenerated; digests of sender/receiver/cancelPendingMsgs/connect/routeResponse and the error formatters; engine qc checks code + message per failing node in the error text.",
-        note="Trusted: as C01. The liveness half ('a waiting call is completed when the connection breaks') is checked by the fault engine of C09/C10 (connection resets while calls wait), not proved here.",
+             "(C13); over Chan: a request, streaming or not, is answered with at most one error and nothing after it (at_most_one_error, error_is_last: the failing node is reported once; the pinned code reported a node "
+             "twice: pinned_streaming_router_reports_twice); over ConnMgr: requests written to a stream that dies are answered (lost_is_cancelled). Tie: error guards and loop parameters regenerated; digests of sender/receiver/cancelPendingMsgs/connect/routeResponse and the error formatters; engine qc checks code + message per failing node in the error text.",
+        note="Trusted: as C01. The liveness half ('a waiting call is completed when the connection breaks') is the ConnMgr statement lost_is_cancelled (a safety statement: a cancellation is on its way; that it arrives needs the scheduler assumption) and is exercised by the crash arrivals of engines qc / crashrace / corr.",
     ),
     "C11": dict(
         level="proof", engines=[eng("corr", 2000, 40000)], labels=["C11"],
         text="Theorems (Props/C11.lean): the object starts at LevelNotSet with no reply; the watcher invariant (closed iff level reached or completed) is preserved by Watch at any "
              "moment and by every publication; the loop never calls set on a completed object; published levels never decrease; only the last snapshot can be completed (done is final); "
              "a strictly higher level is published at once with the quorum function's value and releases the watchers at or below it; done publishes QF's value, releases everything; "
-             "context end / exhaustion (also zero targets; streams: all failed) complete with the right error; every stored reply is a QF value, so the typed accessors never panic. "
+             "context end / exhaustion (also zero targets; streams: all failed) complete with the right error; every stored reply is a QF value, so the typed accessors never panic; 'every node has failed' counts nodes, not errors: a node answers a request with at most one error (Chan: at_most_one_error, the repair of D18). "
              "Tie (Tie/C11.lean): initial level, both exhaustion arms and their position, both watcher comparisons and the publication structure of the reply case are regenerated from "
-             "correctable.go on every run; digests; exact differential run of all 12 correctable variants (gated arrivals, snapshots of raw/typed Get, Done and every Watch channel after every arrival).",
+             "correctable.go on every run; digests; exact differential run of all 12 correctable variants (gated arrivals, crashes of a node's server during a stream, snapshots of raw/typed Get, Done and every Watch channel after every arrival).",
         note="Trusted: Lean kernel; gx; the hand-written loop/object model (tied by T1 facts, digests and the exact T3 run). Not observable without instrumentation: the order in which two "
              "error arrivals that do not change the published state are consumed (error lists are compared as sets) and, for streams, whether an error arrival was consumed before the context ended.",
     ),
